@@ -31,6 +31,20 @@ CHECKS['C03'] = ('proof', 'Validity of a side <-> the documented rejections; ass
                  'per-side enumeration (18x18 selection pairs x 8 port sets), sampled cross product, full builds.',
                  'trusted: as C14 + buildlib (JSON model rendering, header regex). Repaired defect: F4 (KeyError for an uncovered exposed port).', '§5 C03')
 
+CHECKS['C05'] = ('proof', 'Round-trip theorem: for every well-formed Dezyne file (unbounded nesting, multi-identifier and re-opened namespaces, any '
+                 'mix/order) process(to_json f) = flatten_decls f, plus corollaries (unknown classes skipped, order, counts, fqn = path+name) '
+                 '(Properties/C05.v). Correspondence: generated files parsed by the implementation and compared with flatten_decls and the model parser; '
+                 'the Python JSON renderer is compared with the Gallina to_json on every case.',
+                 'trusted: Coq kernel, extraction+driver, harness generator/unparser. JSON shapes taken from the repository test data (no dzn tool here).', '§5 C05')
+CHECKS['C15'] = ('proof', 'Totality theorem over ALL JSON values: process returns file contents or one of the two documented errors; Internal (fuel, '
+                 'KeyError-like) outcomes exist in the model and are proved unreachable; out events with non-void reply / out parameter are refused '
+                 '(Properties/C15.v). Correspondence: every single fault (delete/retype/retag/ids/direction) at every node of generated documents, multi-fault samples.',
+                 'trusted: as C05 + orjson. Outcome compared coarsely (accepted / documented error / other). Known finding K5 (interpreter recursion limit) is outside the model and probed on every run.', '§5 C15')
+CHECKS['C16'] = ('proof', 'Parser object as a state machine: process() result = parse of the held document; idempotent; for every history over any number of '
+                 'instances each result equals the spec run that tracks documents only (Properties/C16.v). Correspondence: histories of new/load_file/process '
+                 'over shared documents, each result compared with the model, with a fresh-instance parse, and re-read at the end of the history.',
+                 'trusted: as C05. Repaired defect: F2 (process accumulated earlier results).', '§5 C16')
+
 NOT_YET = {
 }
 
